@@ -314,7 +314,14 @@ func randomRun(seed int64, G, n int) result {
 				id, _ := gateway.IDOfMessage(m)
 				rmu.Lock()
 				res.read = append(res.read, id)
+				k := len(res.read)
 				rmu.Unlock()
+				// a lagging application (odd seeds): telegrams queue up on the client side
+				if seed%2 == 1 && k%6 == 0 {
+					t0 := time.Now()
+					for time.Since(t0) < 40*time.Microsecond {
+					}
+				}
 			case <-stop:
 				return
 			}
@@ -333,7 +340,7 @@ func randomRun(seed int64, G, n int) result {
 	wg.Add(1)
 	go func() {
 		defer wg.Done()
-		for i := 0; i < n/2; i++ {
+		for i := 0; i < n*2; i++ {
 			gw.SendToClient(uint32(5000000 + i))
 		}
 	}()
@@ -563,6 +570,26 @@ func judge(res result) {
 			r.Violate("inbound.lost", attrs("other"), hist(o.ID), "[%s] the gateway obtained an acknowledgement for telegram %d (number %d) but the application never received it", res.sig, o.ID, o.Seq)
 		}
 	}
+	// ... and in the gateway's order (the application side keeps the order of
+	// acceptance since the repair recorded for C17)
+	outPos := map[uint32]int{}
+	for i, o := range res.out {
+		if _, ok := outPos[o.ID]; !ok {
+			outPos[o.ID] = i
+		}
+	}
+	last, lastID := -1, uint32(0)
+	for _, id := range res.read {
+		p, ok := outPos[id]
+		if !ok {
+			continue
+		}
+		if p < last {
+			r.Violate("inbound.order", attrs("other"), hist(id, lastID), "[%s] the application received telegram %d after telegram %d although the gateway sent (and had acknowledged) them in the opposite order", res.sig, id, lastID)
+			break
+		}
+		last, lastID = p, id
+	}
 	for id, k := range readCount {
 		if k > 1 {
 			r.Violate("inbound.duplicate", attrs("other"), hist(id), "[%s] telegram %d was delivered to the application %d times", res.sig, id, k)
@@ -638,7 +665,7 @@ func history(res result, ids []uint32) []string {
 
 func run(rr *mon.Run) {
 	r = rr
-	r.Rule("enumerated: per exchange a pattern of up to two leading faults from {L request lost, A ack lost, D ack duplicated, H ack held, R request duplicated, Q request held} and a terminal from {K healthy, X every ack lost, Y every request lost} (gateway->client: terminal K only); all 129 x 129 two-exchange patterns client->gateway (thorough; seeded subset in quick) crossed with sampled gateway->client patterns, sampled three-exchange patterns; random: 600-Send runs with 1..8 senders, 12/10/10 % loss/duplication/hold-back both ways and 300 concurrent gateway->client telegrams. Distinct = distinct scenario signatures in which at least one fault was actually applied")
+	r.Rule("enumerated: per exchange a pattern of up to two leading faults from {L request lost, A ack lost, D ack duplicated, H ack held, R request duplicated, Q request held} and a terminal from {K healthy, X every ack lost, Y every request lost} (gateway->client: terminal K only); all 129 x 129 two-exchange patterns client->gateway (thorough; seeded subset in quick) crossed with sampled gateway->client patterns, sampled three-exchange patterns; random: 600-Send runs with 1..8 senders, 12/10/10 % loss/duplication/hold-back both ways and 1200 concurrent gateway->client telegrams (every second run against a lagging application). Distinct = distinct scenario signatures in which at least one fault was actually applied")
 	outPats := exchangePatterns(terminalsOut)
 	inPats := exchangePatterns([]byte{fK})
 	rng := rand.New(rand.NewSource(r.Seed()*977 + 3))
@@ -691,6 +718,9 @@ func run(rr *mon.Run) {
 		go func() {
 			defer wg.Done()
 			for j := range ch {
+				if r.Enough() {
+					continue
+				}
 				r.Crumb("C05 enum out=%v in=%v", j.out, j.in)
 				judge(scenario(j.out, j.in))
 			}
@@ -702,7 +732,7 @@ func run(rr *mon.Run) {
 		fmt.Sscan(v, &nr)
 	}
 	var slowest time.Duration
-	for i := 0; i < nr; i++ {
+	for i := 0; i < nr && !r.Enough(); i++ {
 		r.Crumb("C05 random %d", i)
 		t0 := time.Now()
 		res := randomRun(r.Seed()*5000+int64(i), []int{1, 4, 8, 2}[i%4], 600)
